@@ -166,6 +166,9 @@ type scenario struct {
 	Bal   env.Bal
 	Meta  env.Meta
 	UsesO bool // calls overdraft()
+	// AltVars: another assignment of the variables; a run with it on the same parsed script precedes
+	// the history-free comparison and runs concurrently in the "different inputs" variant
+	AltVars map[string]string
 }
 
 func c11Scenarios() []scenario {
@@ -194,8 +197,25 @@ func c11Scenarios() []scenario {
 			}
 			prog.Stmts = []gen.Stmt{op.Mk()}
 			text := gen.Text(prog)
-			out = append(out, scenario{Name: op.Name, Text: text, Vars: vars, Bal: bal, Meta: meta, UsesO: strings.Contains(text, "overdraft (")})
+			sc := scenario{Name: op.Name, Text: text, Vars: vars, Bal: bal, Meta: meta, UsesO: strings.Contains(text, "overdraft (")}
+			if _, ok := vars["w"]; ok {
+				sc.AltVars = map[string]string{"w": "world"}
+			}
+			out = append(out, sc)
 		}
+	}
+	{
+		// a bounded overdraft on a variable account that cannot cover the amount; the other assignment names @world
+		prog := &gen.Program{Vars: []*gen.VarDecl{{Type: &gen.TypeName{Name: "account"}, Name: gen.V("w")}},
+			Stmts: []gen.Stmt{sendN("USD", "100", &gen.SrcOverdraft{Addr: gen.V("w"), Bounded: gen.Mon("USD", "10")}, da("x"))}}
+		out = append(out, scenario{Name: "bounded-overdraft-on-$w", Text: gen.Text(prog), Vars: map[string]string{"w": "b"}, AltVars: map[string]string{"w": "world"}, Bal: bal, Meta: meta})
+		// an asset the store has no entry for, on an account it knows in another asset
+		prog = &gen.Program{Stmts: []gen.Stmt{sendN("EUR", "2", lst(sa("b"), sa("world")), da("x"))}}
+		out = append(out, scenario{Name: "asset-unknown-for-known-account", Text: gen.Text(prog), Vars: map[string]string{}, Bal: bal, Meta: meta})
+		// metadata of an account the store knows nothing about (the run fails; the store must stay as it was)
+		prog = &gen.Program{Vars: []*gen.VarDecl{originDecl("account", "v", "meta", gen.Acct("zz"), gen.Str("acc"))},
+			Stmts: []gen.Stmt{sendN("USD", "1", &gen.SrcAccount{E: gen.V("v")}, da("x"))}}
+		out = append(out, scenario{Name: "meta-of-unknown-account", Text: gen.Text(prog), Vars: map[string]string{}, Bal: bal, Meta: meta})
 	}
 	// metadata: scripts that read a metadata entry and also write metadata (same and other keys)
 	mops := append(metaOps(), op{"am b.acc=@x", 0, func() gen.Stmt {
@@ -364,6 +384,8 @@ func runC11(w *mc.Worker) {
 				vars := copyVars(sc.Vars)
 				flags := map[string]struct{}{interpreter.ExperimentalOverdraftFunctionFeatureFlag: {}}
 				fpVars, fpFlags, fpBal, fpMeta, fpTree := fingerprint(vars), fingerprint(flags), fingerprint(st.Bal), fingerprint(st.Meta), fingerprint(&pr)
+				sb0, sm0 := st.StaticMaps()
+				fpSB, fpSM := fingerprint(sb0), fingerprint(sm0)
 				o1 := RunReal(pr, vars, st, flags)
 				key := fmt.Sprintf("purity|%s|%s", sc.Text, md)
 				w.Eval(key, md == env.Static, "purity "+md.String()+" "+o1.Class())
@@ -385,6 +407,14 @@ func runC11(w *mc.Worker) {
 				}
 				if a := fingerprint(st.Meta); a != fpMeta {
 					report("the metadata maps obtained from the store", fpMeta, a)
+				}
+				if sb1, sm1 := st.StaticMaps(); sb1 != nil {
+					if a := fingerprint(sb1); a != fpSB {
+						report("the balance maps obtained from the store", fpSB, a)
+					}
+					if a := fingerprint(sm1); a != fpSM {
+						report("the metadata maps obtained from the store", fpSM, a)
+					}
 				}
 				if a := fingerprint(&pr); a != fpTree {
 					// not an input the property names: recorded, judged through its effects below
@@ -411,6 +441,9 @@ func runC11(w *mc.Worker) {
 							w.Count("harness_errors", 1)
 							w.Rep.Notes = append(w.Rep.Notes, "oneshot subprocess failed")
 							break
+						}
+						if sc.AltVars != nil {
+							RunReal(pr, copyVars(sc.AltVars), env.New(env.Exact, bb, sc.Meta), overdraftOn)
 						}
 						got := outSig(RunReal(pr, copyVars(sc.Vars), env.New(env.Exact, bb, sc.Meta), overdraftOn))
 						w.Eval(fmt.Sprintf("fresh|%s|%s", sc.Text, balStr(bb)), true, "history-free "+strings.SplitN(got, ":", 2)[0])
@@ -518,6 +551,13 @@ func runC11(w *mc.Worker) {
 						bals[t] = b2
 					}
 				}
+				tvars := make([]map[string]string, sg.thrs)
+				for t := range tvars {
+					tvars[t] = sc.Vars
+					if variant == 1 && t > 0 && sc.AltVars != nil {
+						tvars[t] = sc.AltVars
+					}
+				}
 				// solo results (no scheduler)
 				solo := make([]string, sg.thrs)
 				for t := range solo {
@@ -525,7 +565,7 @@ func runC11(w *mc.Worker) {
 					if variant == 2 {
 						md = env.Static
 					}
-					solo[t] = outSig(RunReal(pr, copyVars(sc.Vars), env.New(md, bals[t], sc.Meta), overdraftOn))
+					solo[t] = outSig(RunReal(pr, copyVars(tvars[t]), env.New(md, bals[t], sc.Meta), overdraftOn))
 				}
 				w.Inner(sg.preempt, func(in *mc.Explorer) {
 					outs := make([]*Out, sg.thrs)
@@ -543,7 +583,7 @@ func runC11(w *mc.Worker) {
 								st = env.New(env.Exact, bals[t], sc.Meta)
 								st.Yield = verifrt.Yield
 							}
-							outs[t] = RunReal(pr, copyVars(sc.Vars), st, overdraftOn)
+							outs[t] = RunReal(pr, copyVars(tvars[t]), st, overdraftOn)
 						}
 					}
 					s, panics := verifrt.RunThreads(in, sg.level, bodies)
@@ -641,14 +681,18 @@ func RacePass() {
 			var wg sync.WaitGroup
 			for g := 0; g < 4; g++ {
 				wg.Add(1)
+				gv := sc.Vars
+				if g%2 == 1 && sc.AltVars != nil {
+					gv = sc.AltVars
+				}
 				go func() {
 					defer wg.Done()
 					for i := 0; i < 25; i++ {
 						if shared != nil {
 							// the shared StaticStore: call the bundled store directly (the logging wrapper has its own counters)
-							RunReal(pr, copyVars(sc.Vars), shared, overdraftOn)
+							RunReal(pr, copyVars(gv), shared, overdraftOn)
 						} else {
-							RunReal(pr, copyVars(sc.Vars), env.New(env.Exact, sc.Bal, sc.Meta), overdraftOn)
+							RunReal(pr, copyVars(gv), env.New(env.Exact, sc.Bal, sc.Meta), overdraftOn)
 						}
 					}
 				}()
